@@ -4,6 +4,7 @@ import (
 	"fmt"
 	"math"
 	"math/big"
+	"regexp"
 	"strconv"
 	"strings"
 	"unicode/utf16"
@@ -21,6 +22,8 @@ type docStyle struct {
 	Escape  int  // out of 10: how often a character that may be raw is escaped anyway
 	Newline bool // allow LF/CR in whitespace
 }
+
+var jsonNumberRe = regexp.MustCompile(`^-?(0|[1-9][0-9]*)(\.[0-9]+)?([eE][+-]?[0-9]+)?$`)
 
 func randStyle(r *rng.R) docStyle {
 	return docStyle{WS: r.Intn(3), Escape: []int{0, 1, 3, 10}[r.Intn(4)], Newline: r.Chance(3, 4)}
@@ -249,8 +252,48 @@ func genDocTree(r *rng.R, root spec.Kind, maxDepth, maxWidth int) *spec.Spec {
 			return spec.StrV(spec.GenStr(r))
 		}
 	}
+	literalText := func(v *spec.Spec) string {
+		switch v.K {
+		case spec.Nil:
+			return "null"
+		case spec.Bool:
+			return strconv.FormatBool(v.B)
+		case spec.Int:
+			if v.Lit != "" {
+				return v.Lit
+			}
+			return strconv.Itoa(v.I)
+		case spec.Float:
+			if v.Lit != "" {
+				return v.Lit
+			}
+			return refjson.FloatLit(v.F)
+		}
+		return v.S
+	}
+	lookalike := func(prev *spec.Spec) *spec.Spec {
+		if prev.K != spec.Str {
+			return spec.StrV(literalText(prev)) // 12 then "12", null then "null"
+		}
+		switch prev.S {
+		case "null":
+			return spec.NilV()
+		case "true":
+			return spec.BoolV(true)
+		case "false":
+			return spec.BoolV(false)
+		}
+		if !jsonNumberRe.MatchString(prev.S) {
+			// (ClassifyNumber takes what strconv takes, "1." and ".5" among it: only texts of the JSON number grammar qualify)
+		} else if v, err := refjson.ClassifyNumber(prev.S, IntBits); err == nil {
+			v.Lit = prev.S
+			return v // "12" then 12
+		}
+		return spec.StrV([]string{"null", "true", "false", "0", "-1", "1.5", "1e2"}[r.Intn(7)])
+	}
 	rec = func(k spec.Kind, depth int) *spec.Spec {
 		s := &spec.Spec{K: k}
+		var prev *spec.Spec
 		n := r.Range(0, maxWidth)
 		if r.Chance(1, 8) {
 			n = 0
@@ -265,9 +308,15 @@ func genDocTree(r *rng.R, root spec.Kind, maxDepth, maxWidth int) *spec.Spec {
 				v = rec(ck, depth+1)
 			} else {
 				v = scalar()
+				if prev != nil && r.Chance(1, 6) {
+					v = lookalike(prev) // a neighbour spelled with the same characters, but of another kind
+				}
+				prev = v
 			}
 			if k == spec.List {
 				s.L = append(s.L, v)
+			} else if v.K != spec.List && v.K != spec.Obj && r.Chance(1, 12) {
+				s.Set(literalText(v), v) // the key reads like its value
 			} else {
 				s.Set(spec.GenKey(r), v)
 			}
